@@ -223,6 +223,7 @@ func (c *Conn) processEncryptedClientHello(h *clientHello, isRetry bool) (*clien
 		return nil, nil
 	}
 	var innerBytes []byte
+	var opened bool
 	for _, key := range c.keys {
 		cfg, err := Config(key.Config).Spec()
 		if err != nil || cfg.ID != h.echExt.ConfigID || slices.IndexFunc(cfg.CipherSuites, func(cs CipherSuite) bool {
@@ -262,10 +263,10 @@ func (c *Conn) processEncryptedClientHello(h *clientHello, isRetry bool) (*clien
 		// Keep the context of the key that opened the payload. It is
 		// needed if the hello is retried.
 		c.hpkeCtx, c.hpkeConfig = ctx, key.Config
-		innerBytes = b
+		innerBytes, opened = b, true
 		break
 	}
-	if innerBytes == nil {
+	if !opened {
 		// Section 7.1.1, regarding a retried ClientHello:
 		// If decryption fails, the client-facing server MUST abort the
 		// handshake with a "decrypt_error" alert.
